@@ -317,7 +317,10 @@ func (r *rewriter) stmts() {
 			continue
 		}
 		name := fd.Name.Name
-		if name == "init" {
+		switch name {
+		case "init", "Error", "String", "GoString", "Format", "Unwrap", "Is", "As", "MarshalJSON", "UnmarshalJSON", "MarshalText", "UnmarshalText":
+			// called from inside fmt / errors / encoding/json / loggers, possibly
+			// while those hold real mutexes: never a scheduling point
 			continue
 		}
 		walk(name, fd.Body)
